@@ -303,7 +303,7 @@ fn children_of(entries: &[EntryRec], i: usize) -> Vec<usize> {
     (0..entries.len()).filter(|j| entries[*j].parent == Some(i) && entries[*j].id.is_some()).collect()
 }
 
-fn check_unit(header: &UnitHeader<Rdr>, rec: &UnitRec, spec: &UnitSpec, da: &DebugAbbrev<Rdr>, in_types: bool, cx: &mut Ctx) -> R {
+fn check_unit(header: &UnitHeader<Rdr>, rec: &UnitRec, spec: &UnitSpec, da: &DebugAbbrev<Rdr>, in_types: bool, section: &[u8], cx: &mut Ctx) -> R {
     let cfg = spec.cfg;
     // ---- header accessors
     ensure_eq!(header.offset().0, rec.offset, "c02/header/offset");
@@ -351,6 +351,33 @@ fn check_unit(header: &UnitHeader<Rdr>, rec: &UnitRec, spec: &UnitSpec, da: &Deb
             ensure_eq!(UnitOffset(probe).to_debug_info_offset(header).map(|o| o.0), Some(rec.offset + probe), "c02/header/to_debug_info_offset");
             let back = gimli::DebugInfoOffset(rec.offset + probe).to_unit_offset(header).map(|o| o.0);
             ensure_eq!(back, if inb { Some(probe) } else { None }, "c02/header/DebugInfoOffset::to_unit_offset", "probe {}", probe);
+        }
+    }
+    // ---- byte ranges of the unit: views of exactly the section bytes between two unit offsets
+    {
+        let mut marks: Vec<usize> = vec![rec.header_size, rec.total_len - 1];
+        marks.extend(rec.entries.iter().map(|e| e.offset));
+        marks.extend(rec.entries.iter().map(|e| e.end).filter(|e| *e < rec.total_len));
+        marks.sort();
+        marks.dedup();
+        let pick: Vec<usize> = if marks.len() > 6 { vec![marks[0], marks[1], marks[marks.len() / 2], marks[marks.len() - 2], marks[marks.len() - 1]] } else { marks.clone() };
+        let view = |r: &Rdr| -> (usize, usize) { ((r.slice().as_ptr() as usize).wrapping_sub(section.as_ptr() as usize), r.len()) };
+        for (i, a) in pick.iter().enumerate() {
+            let got = header.range_from(UnitOffset(*a)..).map_err(|e| Failure { sig: "c02/header/range_from".into(), detail: format!("{}..: {:?}", a, e) })?;
+            ensure_eq!(view(&got), (rec.offset + a, rec.total_len - a), "c02/header/range_from-view", "unit at {:#x}, from unit offset {}", rec.offset, a);
+            let got = header.range_to(..UnitOffset(*a)).map_err(|e| Failure { sig: "c02/header/range_to".into(), detail: format!("..{}: {:?}", a, e) })?;
+            ensure_eq!(view(&got), (rec.offset + rec.header_size, a - rec.header_size), "c02/header/range_to-view", "unit at {:#x}, to unit offset {}", rec.offset, a);
+            for b in &pick[i..] {
+                let got = header.range(UnitOffset(*a)..UnitOffset(*b)).map_err(|e| Failure { sig: "c02/header/range".into(), detail: format!("{}..{}: {:?}", a, b, e) })?;
+                ensure_eq!(view(&got), (rec.offset + a, b - a), "c02/header/range-view", "unit at {:#x}, unit offsets {}..{}", rec.offset, a, b);
+                ensure_eq!(got.slice(), &section[rec.offset + a..rec.offset + b], "c02/header/range-bytes");
+            }
+        }
+        // offsets outside the entries are refused
+        for bad in [0usize, rec.header_size - 1, rec.total_len, rec.total_len + 7] {
+            ensure!(header.range_from(UnitOffset(bad)..).is_err(), "c02/header/range_from-out-of-bounds", "unit offset {} (header {}, total {})", bad, rec.header_size, rec.total_len);
+            ensure!(header.range_to(..UnitOffset(bad)).is_err(), "c02/header/range_to-out-of-bounds", "unit offset {}", bad);
+            ensure!(header.range(UnitOffset(rec.header_size)..UnitOffset(bad)).is_err() || bad == rec.header_size, "c02/header/range-out-of-bounds", "unit offset {}", bad);
         }
     }
     if rec.offset > 0 && !in_types {
@@ -592,7 +619,7 @@ fn check_forest(f: &ForestCase, cx: &mut Ctx) -> R {
     let mut max_depth = 0;
     let mut branching = false;
     for (i, h) in headers.iter().enumerate() {
-        check_unit(h, &built.units[i], &f.units[i], &da, f.in_types, cx)?;
+        check_unit(h, &built.units[i], &f.units[i], &da, f.in_types, if f.in_types { &built.info[..] } else { &built.info[..] }, cx)?;
         let ents = &built.units[i].entries;
         total_entries += ents.iter().filter(|e| e.id.is_some()).count();
         max_depth = max_depth.max(ents.iter().map(|e| e.depth).max().unwrap_or(0));
